@@ -54,51 +54,6 @@ def fieldText (b : Bytes) : Bytes := Utf8.validPrefix (b.takeWhile (fun x => x !
 /-- an id written into its 4-byte field -/
 def idField (s : Bytes) : Bytes := s ++ List.replicate (4 - s.length) 0#8
 
--- type info --------------------------------------------------------------------------------
-
-def tiKind (w : Nat) : Option TypeInfoKind :=
-  let tyle := w % 16
-  let len : Option TypeLength :=
-    match tyle with | 1 => some .b8 | 2 => some .b16 | 3 => some .b32 | 4 => some .b64 | 5 => some .b128
-                    | _ => none
-  let fw : Option FloatWidth := match tyle with | 3 => some .w32 | 4 => some .w64 | _ => none
-  match [4, 5, 6, 7, 8, 9, 10].filter (tiBit w) with
-  | [4] => some .bool
-  | [5] => if tiBit w 12 then fw.map .signedFixedPoint else len.map .signed
-  | [6] => if tiBit w 12 then fw.map .unsignedFixedPoint else len.map .unsigned
-  | [7] => fw.map .float
-  | [9] => some .stringType
-  | [10] => some .raw
-  | _ => none
-
-def tiCoding (w : Nat) : StringCoding :=
-  match w / 32768 % 8 with
-  | 0 => .ascii
-  | 1 => .utf8
-  | c => .reserved (BitVec.ofNat 8 c)
-
-/-- decode a type-info word -/
-def tiDecode (w : Nat) : Option TypeInfo :=
-  (tiKind w).map fun k =>
-    { kind := k, coding := tiCoding w, hasVariableInfo := tiBit w 11, hasTraceInfo := tiBit w 13 }
-
-/-- the word of a type description -/
-def tiWord (t : TypeInfo) : Nat :=
-  let lenCode : TypeLength → Nat | .b8 => 1 | .b16 => 2 | .b32 => 3 | .b64 => 4 | .b128 => 5
-  let fwCode : FloatWidth → Nat | .w32 => 3 | .w64 => 4
-  (match t.kind with
-   | .bool => 16
-   | .signed l => lenCode l + 32
-   | .signedFixedPoint w => fwCode w + 32 + 4096
-   | .unsigned l => lenCode l + 64
-   | .unsignedFixedPoint w => fwCode w + 64 + 4096
-   | .float w => fwCode w + 128
-   | .stringType => 512
-   | .raw => 1024)
-  + (if t.hasVariableInfo then 2048 else 0)
-  + (if t.hasTraceInfo then 8192 else 0)
-  + 32768 * (match t.coding with | .ascii => 0 | .utf8 => 1 | .reserved v => v.toNat % 8)
-
 -- consumers of the payload slice ------------------------------------------------------------------
 
 /-- a decoder consumes a prefix of the remaining bytes or fails -/
@@ -197,21 +152,21 @@ def rdArguments (e : Endian) : Nat → Rd (List Argument)
   | 0 => Rd.pure []
   | n + 1 => (rdArgument e).andThen fun a => (rdArguments e n).map (a :: ·)
 
-/-- the payload, decoded from the declared payload slice alone; bytes of the slice behind the
-    last argument are ignored -/
-def decodePayload (e : Endian) (ext : Option ExtendedHeader) (slice : Bytes) : Option PayloadContent :=
-  let verbose := match ext with | some x => x.verbose | none => false
+/-- the payload, decoded from the declared payload slice alone, given the verbose flag, the
+    number of arguments and the message type announced by the extended header (absent:
+    non-verbose); bytes of the slice behind the last argument are ignored -/
+def decodePayloadWith (e : Endian) (verbose : Bool) (noar : Nat) (mt : Option MessageType)
+    (slice : Bytes) : Option PayloadContent :=
   if verbose then
-    let noar := match ext with | some x => x.argumentCount.toNat | none => 0
     match rdArguments e noar slice with
     | none => none
     | some (args, _) =>
-      match (ext.map (·.messageType) : Option MessageType) with
+      match mt with
       | some (.networkTrace _) =>
         some (.networkTrace (args.filterMap fun a => match a.value with | .raw b => some b | _ => none))
       | _ => some (.verbose args)
   else
-    match (ext.map (·.messageType) : Option MessageType) with
+    match mt with
     | some (.control _) =>
       match slice with
       | [] => none
@@ -221,6 +176,11 @@ def decodePayload (e : Endian) (ext : Option ExtendedHeader) (slice : Bytes) : O
     | _ =>
       if slice.length < 4 then none
       else some (.nonVerbose (BitVec.ofNat 32 (num e (slice.take 4))) (slice.drop 4))
+
+def decodePayload (e : Endian) (ext : Option ExtendedHeader) (slice : Bytes) : Option PayloadContent :=
+  decodePayloadWith e (match ext with | some x => x.verbose | none => false)
+    (match ext with | some x => x.argumentCount.toNat | none => 0)
+    (ext.map (·.messageType)) slice
 
 -- headers by offset -----------------------------------------------------------------------------
 
@@ -355,25 +315,38 @@ def layoutPayload (e : Endian) : PayloadContent → Bytes
   | .networkTrace slices =>
     (slices.map fun s => digits e 4 1024 ++ digits e 2 s.length ++ s).flatten
 
-/-- the bytes of a message -/
+/-- storage header: pattern, seconds and microseconds (little-endian), ECU id -/
+def layoutStorage : Option StorageHeader → Bytes
+  | some sh => [0x44#8, 0x4C#8, 0x54#8, 0x01#8] ++ digitsLE 4 sh.timestamp.seconds.toNat
+      ++ digitsLE 4 sh.timestamp.microseconds.toNat ++ idField sh.ecuId
+  | none => []
+
+/-- `HTYP = UEH + 2 MSBF + 4 WEID + 8 WSID + 16 WTMS + 32 VERS` -/
+def htypOf (h : StandardHeader) : Nat :=
+  (if h.hasExtendedHeader then 1 else 0) + 2 * (if h.endianness == .big then 1 else 0)
+    + 4 * (if h.ecuId.isSome then 1 else 0) + 8 * (if h.sessionId.isSome then 1 else 0)
+    + 16 * (if h.timestamp.isSome then 1 else 0) + 32 * h.version.toNat
+
+/-- the optional fields of the standard header: ECU id, session id, time stamp (big-endian) -/
+def layoutOptional (h : StandardHeader) : Bytes :=
+  (match h.ecuId with | some id => idField id | none => [])
+    ++ (match h.sessionId with | some v => (digitsLE 4 v.toNat).reverse | none => [])
+    ++ (match h.timestamp with | some v => (digitsLE 4 v.toNat).reverse | none => [])
+
+/-- extended header: MSIN, NOAR, APID, CTID -/
+def layoutExtended : Option ExtendedHeader → Bytes
+  | some x => [BitVec.ofNat 8 (msinByte x.verbose x.messageType), x.argumentCount]
+      ++ idField x.applicationId ++ idField x.contextId
+  | none => []
+
+/-- the bytes of a message; LEN counts everything behind the storage header -/
 def layout (m : Message) : Bytes :=
-  let e := m.header.endianness
-  let payload := layoutPayload e m.payload
-  let htyp := (if m.header.hasExtendedHeader then 1 else 0) + 2 * (if e == .big then 1 else 0)
-    + 4 * (if m.header.ecuId.isSome then 1 else 0) + 8 * (if m.header.sessionId.isSome then 1 else 0)
-    + 16 * (if m.header.timestamp.isSome then 1 else 0) + 32 * m.header.version.toNat
-  let opt := (match m.header.ecuId with | some id => idField id | none => [])
-    ++ (match m.header.sessionId with | some v => (digitsLE 4 v.toNat).reverse | none => [])
-    ++ (match m.header.timestamp with | some v => (digitsLE 4 v.toNat).reverse | none => [])
-  let ext := match m.extendedHeader with
-    | some x => [BitVec.ofNat 8 (msinByte x.verbose x.messageType), x.argumentCount]
-        ++ idField x.applicationId ++ idField x.contextId
-    | none => []
+  let payload := layoutPayload m.header.endianness m.payload
+  let opt := layoutOptional m.header
+  let ext := layoutExtended m.extendedHeader
   let len := 4 + opt.length + ext.length + payload.length
-  (match m.storageHeader with
-   | some sh => [0x44#8, 0x4C#8, 0x54#8, 0x01#8] ++ digitsLE 4 sh.timestamp.seconds.toNat
-       ++ digitsLE 4 sh.timestamp.microseconds.toNat ++ idField sh.ecuId
-   | none => [])
-  ++ [BitVec.ofNat 8 htyp, m.header.messageCounter] ++ (digitsLE 2 len).reverse ++ opt ++ ext ++ payload
+  layoutStorage m.storageHeader
+    ++ [BitVec.ofNat 8 (htypOf m.header), m.header.messageCounter] ++ (digitsLE 2 len).reverse
+    ++ opt ++ ext ++ payload
 
 end Dlt.Spec
